@@ -128,8 +128,8 @@ func checkC02(c C02Case, st *stats.Collector) error {
 	fellBackOrFailed := 0
 	for vi, v := range variants {
 		// how the iterator is driven rotates over the variants: a new Message per item, one reused
-		// Message (NextInto(msg)), or the deprecated Next(buf)
-		res := mc.ReadMessagesMode(bytes.NewReader(file), (vi+int(wl.Hash(c)%3))%3, true, false, 0, v.opts...)
+		// Message (NextInto(msg)), the deprecated Next(buf), or mcap.Range
+		res := mc.ReadMessagesMode(bytes.NewReader(file), (vi+int(wl.Hash(c)%4))%4, true, false, 0, v.opts...)
 		if res.Panic != "" {
 			return pk.Failf("panic", "%s panicked: %s", v.name, res.Panic)
 		}
